@@ -43,7 +43,8 @@ def run(ctx):
             cases.append({"toks": t["toks"], "bad": t.get("bad", "gt")})
     for g in graphs:
         cases.append({"graph": g["graph"]})
-    for sp in ("lenstm", "len2cycle"):       # cycles that run through stream /Length entries
+    for sp in ("lenstm", "len2cycle",        # cycles that run through stream /Length entries
+               "ladder-kids", "ladder-dict"):  # acyclic graphs that are not trees: 2^28 paths through 28 levels
         cases.append({"special": sp})
     for f in faults:
         cases.append({"fmt": f["fmt"], "faults": f["faults"], "k": k})
